@@ -47,7 +47,6 @@ class _YieldGroups(Contract):
     [0, n): slice t = x[start_t : end_t] with end_t the t-th run end and start_t the previous end (0 for t = 0);
     with drop_na only the missing elements are removed from each slice; nothing for n == 0."""
     file, prop = F, "C04"
-    also = ("C07", "C08")
     callees = AGG_CALLEES
     drop = False
     holder = None
@@ -221,3 +220,516 @@ class UseNumbaEligibility(Contract):
         eligible = z3.Or(*[k == KCODE[n] for n in ("bool", "int", "uint", "float", "datetime", "timedelta")])
         r = result if M.is_z3(result) else z3.BoolVal(bool(result))
         cx.prove("chosen iff enabled and eligible kind", r == z3.And(flag, eligible))
+
+
+# =========================================================================================
+# C07: the aggregation helpers - vector form
+# =========================================================================================
+from pyvc.models_np import stat_term, NPScalar, NAN, NAT
+from contracts.data_frame import na_value_term
+
+# helper -> (NumPy statistic, elements required, default, default of drop_na, pre-conversion)   [from the property text]
+HELPERS = {
+    "mean": ("mean", 1, "nan", True, None), "median": ("median", 1, "nan", True, None),
+    "min": ("amin", 1, "na_value", True, None), "max": ("amax", 1, "na_value", True, None),
+    "sum": ("sum", 0, None, True, None),
+    "std": ("std_ddof", 2, "nan", True, None), "var": ("var_ddof", 2, "nan", True, None),
+}
+
+
+def kept_seq(cx, x, drop):
+    """the elements the statistic is computed from: all of them, or the non-missing ones in order"""
+    it = cx.it
+    s = Seq(x.sym["len"], lambda j: x.sym["elem"](j), V)
+    if drop is False:
+        return s
+    flt = filter_seq(cx.ctx, x.sym["len"], lambda k: z3.Not(na_formula(it, x.sym["kind"], x.sym["elem"](k))), lambda k: x.sym["elem"](k), V)
+    if drop is True:
+        return flt
+    raise Unsupported("symbolic drop_na")
+
+
+def default_term(cx, x, what):
+    if what == "nan":
+        return NAN
+    if what == "na_value":
+        return na_value_term(cx.it, x.sym["kind"])
+    return M.to_v(cx.it, what)
+
+
+def _mk_vec_helper(name, drop):
+    stat, req, dflt, drop_default, _ = HELPERS[name]
+
+    class H(Contract):
+        file, qualname, prop = F, name, "C07"
+        variant = f"vector form, drop_na={drop}"
+        callees = AGG_CALLEES
+        config = {"np_scalars": True}
+
+        def setup(self, cx):
+            cx.it.np_scalars = True
+            x = sym_vector(cx, "x")
+            # numeric reductions are defined for numeric / boolean / date kinds; min and max also for strings
+            k = x.sym["kind"]
+            ok = [KCODE[n] for n in ("bool", "int", "float")] + ([KCODE["string"], KCODE["datetime"]] if name in ("min", "max") else [])
+            cx.assume(z3.Or(*[k == c for c in ok]))
+            kw = {"drop_na": drop}
+            if name in ("std", "var"):
+                kw["ddof"] = cx.int("ddof")
+            return {"self": None, "args": [x], "kwargs": kw, "x": x}
+
+        def ensures(self, cx, result):
+            x = cx.inputs["x"]
+            kept = kept_seq(cx, x, drop)
+            extra = [cx.inputs["kwargs"]["ddof"]] if name in ("std", "var") else []
+            expected_stat = stat_term(cx.it, stat, kept, extra)
+            r = M.to_v(cx.it, result)
+            if req == 0:
+                cx.prove("result = statistic of the (kept) elements", r == expected_stat)
+            else:
+                cx.prove("result = statistic of the (kept) elements, or the default when fewer than required",
+                         r == z3.If(zint(kept.len) >= req, expected_stat, default_term(cx, x, dflt)))
+            cx.prove("frame:no-write-into-input-buffers", no_input_writes(cx.ctx))
+    H.__name__ = f"Vec_{name}_{drop}"
+    return register(H)
+
+
+for _h in HELPERS:
+    for _d in (True, False):
+        _mk_vec_helper(_h, _d)
+
+
+def mode1_contract(it, args, kwargs):
+    """Callee contract of mode1 (statistics.mode / Counter.most_common): the first encountered among the most
+    frequent elements - an uninterpreted statistic of the sequence (assumed; bounded contract checks tie-breaking)."""
+    a = args[0]
+    return NPScalar(stat_term(it, "mode_first_most_frequent", a.seq), a.kind)
+
+
+MODE_CALLEES = dict(AGG_CALLEES)
+MODE_CALLEES["mode1"] = mode1_contract
+
+
+class _VecHelper(Contract):
+    file, prop = F, "C07"
+    callees = MODE_CALLEES
+    drop = False
+    kinds = ("bool", "int", "float", "string", "datetime")
+
+    def setup(self, cx):
+        cx.it.np_scalars = True
+        x = sym_vector(cx, "x")
+        cx.assume(z3.Or(*[x.sym["kind"] == KCODE[n] for n in self.kinds]))
+        return {"self": None, "args": [x] + self.extra_args(cx), "kwargs": self.kw(), "x": x}
+
+    def extra_args(self, cx):
+        return []
+
+    def kw(self):
+        return {"drop_na": self.drop}
+
+
+def _reg(cls, qual, variant_, **attrs):
+    C = type(f"{cls.__name__}_{qual}_{variant_}".replace(" ", "_").replace("=", ""), (cls,), dict(qualname=qual, variant=variant_, **attrs))
+    return register(C)
+
+
+class _AllAny(_VecHelper):
+    kinds = ("bool", "int", "float")
+    stat = "all"
+
+    def kw(self):
+        return {}
+
+    def ensures(self, cx, result):
+        from pyvc.core import truthy
+        x = cx.inputs["x"]
+        s = Seq(x.sym["len"], lambda j: truthy(x.sym["elem"](j)), BOOL)
+        cx.prove("result = all/any of the elements as booleans", M.to_v(cx.it, result) == stat_term(cx.it, self.stat, s))
+
+
+_reg(_AllAny, "all", "vector form", stat="all")
+_reg(_AllAny, "any", "vector form", stat="any")
+
+
+class _Count(_VecHelper):
+    def ensures(self, cx, result):
+        x = cx.inputs["x"]
+        kept = kept_seq(cx, x, self.drop)
+        cx.prove("result = number of (kept) elements", zint(result) == zint(kept.len))
+
+
+class _CountUnique(_VecHelper):
+    def ensures(self, cx, result):
+        from pyvc.core import intof
+        x = cx.inputs["x"]
+        kept = kept_seq(cx, x, self.drop)
+        cx.prove("result = number of distinct (kept) elements", zint(result) == intof(stat_term(cx.it, "count_distinct", kept)))
+
+
+class _Nth(_VecHelper):
+    index = None
+
+    def extra_args(self, cx):
+        if self.index is None:
+            cx.index = cx.int("index")
+            return [cx.index]
+        cx.index = z3.IntVal(self.index)
+        return []
+
+    def ensures(self, cx, result):
+        x = cx.inputs["x"]
+        kept = kept_seq(cx, x, self.drop)
+        i, n = cx.index, zint(kept.len)
+        inside = z3.And(i >= -n, i < n)
+        pos = z3.If(i < 0, i + n, i)
+        cx.prove("result = element at the (Python-style) index, or the missing value when out of range",
+                 M.to_v(cx.it, result) == z3.If(inside, kept.at(pos), na_value_term(cx.it, x.sym["kind"])))
+
+
+class _Mode(_VecHelper):
+    def ensures(self, cx, result):
+        x = cx.inputs["x"]
+        kept = kept_seq(cx, x, self.drop)
+        cx.prove("result = first most frequent (kept) element, or the missing value when there is none",
+                 M.to_v(cx.it, result) == z3.If(zint(kept.len) >= 1, stat_term(cx.it, "mode_first_most_frequent", kept), na_value_term(cx.it, x.sym["kind"])))
+
+
+class _Quantile(_VecHelper):
+    kinds = ("bool", "int", "float")
+
+    def extra_args(self, cx):
+        cx.q = cx.val("q")
+        return [cx.q]
+
+    def ensures(self, cx, result):
+        x = cx.inputs["x"]
+        kept = kept_seq(cx, x, self.drop)
+        cast = z3.Function("cast_float", V, V)          # the value as a float (astype(float)); identity on floats - not needed here
+        asf = Seq(kept.len, lambda j: cast(kept.at(j)), V)
+        cx.prove("result = q-quantile of the (kept) elements as floats, NaN when there is none",
+                 M.to_v(cx.it, result) == z3.If(zint(kept.len) >= 1, stat_term(cx.it, "quantile", asf, [cx.q]), NAN))
+
+
+for _d in (True, False):
+    _reg(_Count, "count", f"vector form, drop_na={_d}", drop=_d)
+    _reg(_CountUnique, "count_unique", f"vector form, drop_na={_d}", drop=_d)
+    _reg(_Nth, "nth", f"vector form, drop_na={_d}", drop=_d)
+    _reg(_Nth, "first", f"vector form, drop_na={_d}", drop=_d, index=0)
+    _reg(_Nth, "last", f"vector form, drop_na={_d}", drop=_d, index=-1)
+    _reg(_Mode, "mode", f"vector form, drop_na={_d}", drop=_d)
+    _reg(_Quantile, "quantile", f"vector form, drop_na={_d}", drop=_d)
+
+
+# =========================================================================================
+# C07: group-wise form (and the pieces C04 builds on)
+# =========================================================================================
+def run_filter(it, x_at, kind, start, length, famname):
+    """the non-missing elements of x[start:start+length], in order (one enumeration family per array x)"""
+    ctx = it.ctx
+    e = Enum.family(ctx, famname, [start, length], lambda ps: ps[1],
+                    lambda ps, q: z3.Not(na_formula(it, kind, M.to_v(it, x_at(ps[0] + q)))))
+    s = Seq(e.cnt, lambda j: x_at(zint(start) + e.idx(j)), V, note="filter")
+    s.enum = e
+    return s
+
+
+def yield_groups_contract(it, args, kwargs):
+    """Callee contract of yield_groups (proved above for both settings of drop_na): one slice per maximal run of equal
+    group ids, in order; with drop_na only the non-missing elements of the run."""
+    from pyvc.interp import GenValue, OutSeq
+    ctx = it.ctx
+    x, group, drop = args[0], args[1], args[2] if len(args) > 2 else kwargs.get("drop_na")
+    n = x.seq.len
+    gs = group.seq
+    g = (lambda j: gs.at(j))
+    if not ctx.branch(zint(gs.len) == zint(n)):
+        raise Unsupported("yield_groups: group vector of another length")
+    e = Enum.of(ctx, n, lambda k: z3.Or(k + 1 == zint(n), g(k + 1) != g(k)))
+    dropb = M.truth(it, drop)
+    dropped = ctx.branch(dropb) if not isinstance(dropb, bool) else dropb
+    xs = x.seq
+
+    def slice_at(t):
+        start = z3.If(zint(t) == 0, 0, e.idx(zint(t) - 1) + 1)
+        end = e.idx(zint(t)) + 1
+        if not dropped:
+            return NDArr(ctx, Seq(conc(end - start), lambda j: xs.at(start + j), xs.sort), x.kind, x.owner, x.cls, base=None)
+        flt = run_filter(it, lambda j: M.to_v(it, xs.at(j)), x.kind, start, end - start, "nonNA_of_x")
+        return NDArr(ctx, flt, x.kind, "fresh", x.cls)
+    out = OutSeq()
+    seg = Seq(e.cnt, slice_at, None)
+    seg.keep_symbolic = True
+    out.emit_seq(seg)
+    it.__dict__.setdefault("callee_log", []).append(("yield_groups", {"enum": e, "dropped": dropped, "x": x, "group": group}))
+    return GenValue(out)
+
+
+GROUP_CALLEES = dict(MODE_CALLEES)
+GROUP_CALLEES["yield_groups"] = yield_groups_contract
+
+# helper -> (statistic, required, value the kernel is given for "too few", documented default, kinds)
+GROUP_HELPERS = {
+    "mean": ("mean", 1, "nan", "nan"), "median": ("median", 1, "nan", "nan"),
+    "min": ("amin", 1, None, "na_value"), "max": ("amax", 1, None, "na_value"),
+    "sum": ("sum", 0, 0, 0), "std": ("std", 2, "nan", "nan"), "var": ("var", 2, "nan", "nan"),
+}
+
+
+def grouped_data(cx, kinds):
+    """the frame DataFrame.aggregate hands to a group-aware helper: column x of an eligible kind and the column
+    _group_ with the group id of every row"""
+    from contracts.data_frame import sym_frame, typed_elements, named_column
+    data = sym_frame(cx, "data")
+    typed_elements(cx, data)
+    px = named_column(cx, data, "x")
+    pg = named_column(cx, data, "_group_")
+    cx.assume(px != pg)
+    cx.assume(z3.Or(*[data.sym["kind"](px) == KCODE[k] for k in kinds]))
+    cx.assume(data.sym["kind"](pg) == KCODE["int"])
+    return data, px, pg
+
+
+def _mk_group_helper(name, drop):
+    stat, req, kernel_default, doc_default = GROUP_HELPERS[name]
+
+    class G(Contract):
+        """group-wise form: helper("x") returns a function of the grouped frame whose result has one entry per group
+        (= maximal run of equal _group_ ids): the statistic of that group's (non-missing, when drop_na) elements in their
+        order, or the kernel default when the group has fewer elements than required; .default is the documented default
+        which DataFrame.aggregate substitutes for None."""
+        file, qualname, prop = F, name, "C07"
+        variant = f"group-wise form, drop_na={drop}"
+        callees = GROUP_CALLEES
+        config = {"USE_NUMBA": z3.BoolVal(False)}
+
+        def setup(self, cx):
+            cx.it.np_scalars = True
+            return {"self": None, "args": ["x"], "kwargs": {"drop_na": drop}}
+
+        def ensures(self, cx, result):
+            from pyvc.interp import Closure
+            from pyvc.core import MList
+            ctx, it = cx.ctx, cx.it
+            cx.prove("returns a group-aware function", isinstance(result, Closure) and it.getattr(result, "group_aware") is True)
+            kinds = ("bool", "int", "float") + (("string", "datetime") if name in ("min", "max") else ())
+            data, px, pg = grouped_data(cx, kinds)
+            out = it.call(result, [data], {})
+            cx.prove("result-is-a-list", isinstance(out, MList))
+            if not isinstance(out, MList):
+                return
+            sym = data.sym
+            n = sym["nrow"]
+            g = lambda j: sym["elem"](pg, j)
+            e = Enum.of(ctx, n, lambda k: z3.Or(k + 1 == zint(n), g(k + 1) != g(k)))
+            res = out.seq
+            t = ctx.fresh("t", INT)
+            cx.prove("one entry per group", zint(res.len) == e.cnt)
+            ctx.assume(in_range(t, e.cnt))
+            start = z3.If(t == 0, 0, e.idx(t - 1) + 1)
+            end = e.idx(t) + 1
+            xe = lambda j: sym["elem"](px, j)
+            kind = sym["kind"](px)
+            plain = Seq(conc(end - start), lambda j: xe(start + j), V)
+            log = dict(it.__dict__.get("callee_log", []))
+            code_dropped = log.get("yield_groups", {}).get("dropped")
+            if drop and code_dropped:
+                kept = run_filter(it, xe, kind, start, end - start, "nonNA_of_x")
+            elif drop:
+                # the code skips the filtering because the column has no missing value at all; the non-missing
+                # subsequence of the run then IS the run (same length, same elements) - so the statistic, a function of
+                # the elements only, is the one of the run
+                flt = run_filter(it, xe, kind, start, end - start, "nonNA_of_x")
+                j = ctx.fresh("j", INT)
+                ob = cx.prove("lemma: no element of the run is missing", z3.Implies(in_range(j, end - start), z3.Not(na_formula(it, kind, xe(start + j)))))
+                if ob.status == "unsat":
+                    flt.enum.assume_total(ctx)       # j was arbitrary: the filter's predicate holds on the whole run
+                cx.prove("lemma: runs are non-empty ranges", z3.And(0 <= start, start < end, end <= zint(n)))
+                cx.prove("lemma: the non-missing subsequence of the run has the run's length", zint(flt.len) == end - start)
+                cx.prove("lemma: ... and the run's elements", z3.Implies(in_range(j, end - start), flt.at(j) == plain.at(j)))
+                kept = plain
+            else:
+                kept = plain
+            kd = {"nan": NAN, None: NONE}.get(kernel_default, M.to_v(it, kernel_default) if kernel_default not in ("nan", None) else None)
+            expected = stat_term(it, stat, kept)
+            if req > 0:
+                expected = z3.If(zint(kept.len) >= req, expected, kd)
+            cx.prove("entry t = statistic of group t's (kept) elements, or the default when too few", M.to_v(it, res.at(t)) == expected)
+            dd = it.getattr(result, "default")
+            want = {"nan": NAN, "na_value": na_value_term(it, kind)}.get(doc_default, M.to_v(it, doc_default) if not isinstance(doc_default, str) else None)
+            cx.prove("documented default", M.to_v(it, dd) == want)
+    G.__name__ = f"Grp_{name}_{drop}"
+    return register(G)
+
+
+for _h in GROUP_HELPERS:
+    for _d in (True, False):
+        _mk_group_helper(_h, _d)
+
+
+class _GroupForm(Contract):
+    """shared harness for the remaining group-wise forms"""
+    file, prop = F, "C07"
+    callees = GROUP_CALLEES
+    config = {"USE_NUMBA": z3.BoolVal(False)}
+    drop = False
+    kinds = ("bool", "int", "float", "string", "datetime")
+    extra = ()
+
+    def setup(self, cx):
+        cx.it.np_scalars = True
+        cx.extra = [cx.int("index") if e == "index" else cx.val(e) for e in self.extra]
+        kw = {"drop_na": self.drop} if self.has_drop else {}
+        return {"self": None, "args": ["x"] + cx.extra, "kwargs": kw}
+
+    has_drop = True
+
+    def column(self, cx, sym, px):
+        """elements the kernel sees (after the helper's own conversion)"""
+        return lambda j: sym["elem"](px, j)
+
+    def ensures(self, cx, result):
+        from pyvc.interp import Closure
+        from pyvc.core import MList
+        ctx, it = cx.ctx, cx.it
+        cx.prove("returns a group-aware function", isinstance(result, Closure) and it.getattr(result, "group_aware") is True)
+        data, px, pg = grouped_data(cx, self.kinds)
+        out = it.call(result, [data], {})
+        cx.prove("result-is-a-list", isinstance(out, MList))
+        if not isinstance(out, MList):
+            return
+        sym = data.sym
+        n = sym["nrow"]
+        g = lambda j: sym["elem"](pg, j)
+        e = Enum.of(ctx, n, lambda k: z3.Or(k + 1 == zint(n), g(k + 1) != g(k)))
+        res = out.seq
+        t = ctx.fresh("t", INT)
+        cx.prove("one entry per group", zint(res.len) == e.cnt)
+        ctx.assume(in_range(t, e.cnt))
+        start = z3.If(t == 0, 0, e.idx(t - 1) + 1)
+        end = e.idx(t) + 1
+        kind = sym["kind"](px)
+        xe = lambda j: sym["elem"](px, j)
+        xe, kind_f = self.spec_elems(cx, xe, kind)
+        plain_raw = Seq(conc(end - start), lambda j: xe(start + j), V)
+        kind0, kind = kind, kind_f
+        log = dict(it.__dict__.get("callee_log", []))
+        code_dropped = log.get("yield_groups", {}).get("dropped")
+        if self.drop and code_dropped:
+            kept = run_filter(it, xe, kind, start, end - start, "nonNA_of_x")
+        elif self.drop:
+            flt = run_filter(it, xe, kind, start, end - start, "nonNA_of_x")
+            j = ctx.fresh("j", INT)
+            ob = cx.prove("lemma: no element of the run is missing", z3.Implies(in_range(j, end - start), z3.Not(na_formula(it, kind, xe(start + j)))))
+            if ob.status == "unsat":
+                flt.enum.assume_total(ctx)
+            cx.prove("lemma: runs are non-empty ranges", z3.And(0 <= start, start < end, end <= zint(n)))
+            cx.prove("lemma: the non-missing subsequence of the run has the run's length", zint(flt.len) == end - start)
+            cx.prove("lemma: ... and the run's elements", z3.Implies(in_range(j, end - start), flt.at(j) == plain_raw.at(j)))
+            kept = plain_raw
+        else:
+            kept = plain_raw
+        cx.prove("entry t = the helper's statistic of group t's (kept) elements, or the kernel default",
+                 M.to_v(it, res.at(t)) == self.expected(cx, kept, kind))
+        cx.prove("documented default", M.to_v(it, it.getattr(result, "default")) == self.documented_default(cx, kind0))
+
+    def spec_elems(self, cx, xe, kind):
+        return xe, kind
+
+
+class _GCount(_GroupForm):
+    def expected(self, cx, kept, kind):
+        from pyvc.core import vint
+        return vint(zint(kept.len))
+
+    def documented_default(self, cx, kind):
+        return M.to_v(cx.it, 0)
+
+
+class _GCountUnique(_GroupForm):
+    def expected(self, cx, kept, kind):
+        from pyvc.core import vint, intof
+        return vint(intof(stat_term(cx.it, "count_distinct", kept)))
+
+    def documented_default(self, cx, kind):
+        return M.to_v(cx.it, 0)
+
+
+class _GNth(_GroupForm):
+    extra = ("index",)
+    fixed = None
+
+    def setup(self, cx):
+        r = super().setup(cx)
+        if self.fixed is not None:
+            r["args"] = ["x"]
+            cx.extra = [z3.IntVal(self.fixed)]
+        return r
+
+    def expected(self, cx, kept, kind):
+        i, n = cx.extra[0], zint(kept.len)
+        return z3.If(z3.And(i >= -n, i < n), kept.at(z3.If(i < 0, i + n, i)), NONE)
+
+    def documented_default(self, cx, kind):
+        return na_value_term(cx.it, kind)
+
+
+class _GMode(_GroupForm):
+    def expected(self, cx, kept, kind):
+        return z3.If(zint(kept.len) >= 1, stat_term(cx.it, "mode_first_most_frequent", kept), NONE)
+
+    def documented_default(self, cx, kind):
+        return na_value_term(cx.it, kind)
+
+
+for _d in (True, False):
+    _reg(_GCount, "count", f"group-wise form, drop_na={_d}", drop=_d)
+    _reg(_GCountUnique, "count_unique", f"group-wise form, drop_na={_d}", drop=_d)
+    _reg(_GNth, "nth", f"group-wise form, drop_na={_d}", drop=_d)
+    _reg(_GNth, "first", f"group-wise form, drop_na={_d}", drop=_d, fixed=0)
+    _reg(_GNth, "last", f"group-wise form, drop_na={_d}", drop=_d, fixed=-1)
+    _reg(_GMode, "mode", f"group-wise form, drop_na={_d}", drop=_d)
+
+
+class _GAllAny(_GroupForm):
+    has_drop = False
+    kinds = ("bool", "int", "float")
+    stat = "all"
+
+    def expected(self, cx, kept, kind):
+        from pyvc.core import truthy
+        b = Seq(kept.len, lambda j: truthy(kept.at(j)), BOOL)
+        return stat_term(cx.it, self.stat, b)
+
+    def documented_default(self, cx, kind):
+        return M.to_v(cx.it, self.stat == "all")
+
+
+_reg(_GAllAny, "all", "group-wise form", stat="all")
+_reg(_GAllAny, "any", "group-wise form", stat="any")
+
+
+class _GQuantile(_GroupForm):
+    kinds = ("bool", "int", "float")
+    extra = ("q",)
+
+    def spec_elems(self, cx, xe, kind):
+        """quantile works on the column converted to float: astype(float) keeps NaN as NaN and maps every other
+        number / boolean to a non-missing float (assumed); missingness is therefore the same before and after."""
+        cast = z3.Function("cast_float", V, V)
+        v = z3.Const("v!cf", V)
+        cx.ctx.assumptions.append(z3.ForAll([v], z3.And(z3.Not(is_nat(cast(v))), cast(v) != NONE, is_nan(cast(v)) == is_nan(v)), patterns=[cast(v)]))
+        j = cx.ctx.fresh("j", INT)
+        cx.prove("lemma: an element is missing iff its float conversion is NaN",
+                 na_formula(cx.it, kind, xe(j)) == na_formula(cx.it, z3.IntVal(KCODE["float"]), cast(xe(j))))
+        return (lambda i: cast(xe(i))), z3.IntVal(KCODE["float"])
+
+    def expected(self, cx, kept, kind):
+        return z3.If(zint(kept.len) >= 1, stat_term(cx.it, "quantile", kept, [cx.extra[0]]), NAN)
+
+    def documented_default(self, cx, kind):
+        return NAN
+
+
+for _d in (True, False):
+    _reg(_GQuantile, "quantile", f"group-wise form, drop_na={_d}", drop=_d)
